@@ -448,6 +448,11 @@ of `--field name=N` -/
 def pairsFields (c1 p1 c2 p2 : Nat) (values : List (String × Nat)) : List (String × Nat) :=
   [("chrom1", c1), ("pos1", p1), ("chrom2", c2), ("pos2", p2)] ++ values
 
+/-- the optional value field of a pairs record -/
+def fieldOpt {α : Type} (parsed : List (String × Val α)) : Option String → Except Err (List Int)
+  | none => .ok []
+  | some f => (fieldInt parsed f).map fun v => [v]
+
 /-- one pairs line → a record; `value = none`: only the pair count is stored -/
 def pairsRec {α : Type} (contigs : List String) (fields : List (String × Nat)) (value : Option String)
     (row : List (Val α)) : Except Err Sanitize.Rec :=
@@ -455,7 +460,7 @@ def pairsRec {α : Type} (contigs : List String) (fields : List (String × Nat))
   | .error e => .error e
   | .ok p =>
     match fieldStr p "chrom1", fieldInt p "pos1", fieldStr p "chrom2", fieldInt p "pos2",
-          (match value with | none => .ok [] | some f => (fieldInt p f).map fun v => [v]) with
+          fieldOpt p value with
     | .ok c1, .ok a1, .ok c2, .ok a2, .ok u =>
       .ok { c1 := decodeChrom contigs c1, p1 := a1, c2 := decodeChrom contigs c2, p2 := a2, u := u }
     | .error e, _, _, _, _ => .error e
